@@ -218,7 +218,8 @@ def handle (op : String) : R String := do
     pure ("ok " ++ pList (fun a => hexOfString a.name ++ " " ++ hexOfString a.degree.str) (generateAttributes n))
   | "ticks" => do
     let fr ← rList (do let n ← rNat; let d ← rNat; pure (n, d))
-    pure s!"ok {ticksF Generated.ticksPerQuarter fr}"
+    let t := ticksF Generated.ticksPerQuarter fr
+    pure (if t > maxTicks then "toolong" else s!"ok {t}")
   | "tempo" => do let b ← rNat; pure ("ok " ++ hexOfBytes (tempoPayload b))
   | "lex" => do
     let bs ← rBytes
